@@ -167,6 +167,11 @@ fn ix_body<C: IndexContainer<usize> + Clone>(v: &[u64], compressed: bool, list: 
     vassert!(c.len() == want.len() && c.is_empty() == want.is_empty(), "VF:index.len");
     vassert!(c.iter().eq(want.as_slice().iter().copied()), "VF:index.iter");
     vassert!(c.clone().iter().count() == want.len(), "VF:index.clone_iter");
+    // fail-stop: a position at or past the end never returns a value (FlatStack::get relies on it)
+    for past in [want.len(), want.len() + 7].into_iter().filter(|_| v[6] == 0) {
+        let got = std::panic::catch_unwind(std::panic::AssertUnwindSafe(|| c.index(past)));
+        vassert!(got.is_err(), "VF:index.index_past_end_returned");
+    }
     crate::section("VF:index.heap");
     let hp = collect_heap(|cb| c.heap_size(cb));
     vassert!(hp.iter().all(|p| p.0 <= p.1), "VF:index.heap.used_exceeds_capacity");
@@ -225,6 +230,13 @@ fn run_dense(v: &[u64]) {
     let n = v[1] as usize;
     if v[0] == 0 {
         let mut fs = <FlatStack<ConsecutiveIndexPairs<StringRegion>, IndexOptimized>>::default();
+        if v[2] >= 2 {
+            // an earlier life of the stack: only empty items (or mixed ones), then clear
+            for i in 0..3 {
+                fs.copy(if v[2] == 2 { "" } else { string(i) });
+            }
+            fs.clear();
+        }
         for i in 0..n {
             fs.copy(string(v[2] + i as u64));
             if i == 1 {
@@ -403,6 +415,10 @@ fn run_cmp(v: &[u64]) {
     vassert!((x == y) == (a == b), "VF:cmp.eq");
     vassert!(x.partial_cmp(&y) == a.partial_cmp(&b), "VF:cmp.partial_cmp");
     vassert!(x.cmp(&y) == a.cmp(&b), "VF:cmp.cmp");
+    // the comparison operators (a type may override lt / le / gt / ge / ne separately from partial_cmp)
+    vassert!((x < y) == (a < b) && (x <= y) == (a <= b) && (x > y) == (a > b) && (x >= y) == (a >= b) && (x != y) == (a != b), "VF:cmp.operators");
+    vassert!(x.max(y).into_owned() == a.clone().max(b.clone()) && x.min(y).into_owned() == a.clone().min(b.clone()), "VF:cmp.max_min");
+    vassert!(x <= x && x >= x && !(x < x) && !(x > x) && !(x != x), "VF:cmp.operators_reflexive");
     vassert!(x == x && x.cmp(&x) == std::cmp::Ordering::Equal, "VF:cmp.reflexive");
     vassert!((x == y) == (x.cmp(&y) == std::cmp::Ordering::Equal), "VF:cmp.eq_agrees_with_cmp");
     vassert!(x.cmp(&y) == y.cmp(&x).reverse(), "VF:cmp.antisymmetric");
@@ -417,14 +433,14 @@ pub fn harnesses() -> Vec<H> {
     vec![
         H { name: "flatstack_sequence", props: &["C03"], nargs: 8, pre: pre_fs, doms: doms_fs, run: run_fs, panic_ok: false,
             bound: "FlatStack over SliceRegion<MirrorRegion<u8>>/Vec, ConsecutiveIndexPairs<OwnedRegion<u8>>/IndexOptimized and /IndexList: 0..4 items from a 4-value pool built by copy / extend / from_iter (exact-size, filtered and chained iterators); get, iter, cloned iterator, size_hint, into_iter, reserve, clone, clear; out-of-bounds probe", kani: false },
-        H { name: "index_containers", props: &["C05", "C19", "C08", "C10", "C18", "C01", "C02", "C03"], nargs: 7, pre: pre_ix, doms: doms_ix, run: run_ix, panic_ok: false,
+        H { name: "index_containers", props: &["C05", "C19", "C08", "C10", "C18", "C01", "C02", "C03", "C13"], nargs: 7, pre: pre_ix, doms: doms_ix, run: run_ix, panic_ok: false,
             bound: "IndexOptimized, IndexList<Vec<u32>,Vec<u64>>, Vec<usize>: all sequences of length 0..4 over the 12-value transition alphabet {0,1,2,3,4,5,6,8,u32::MAX,u32::MAX+1,2^63,usize::MAX} by push, one extend, two-three extend batches, or a push followed by extends; index/len/iter/clone/reserve/clear/with_capacity; heap bytes equal the documented cost rule; a fully strided sequence allocates nothing, also after reserve", kani: false },
         H { name: "dense_indices_free", props: &["C19"], nargs: 3, pre: pre_dense, doms: doms_dense, run: run_dense, panic_ok: false,
-            bound: "FlatStack<ConsecutiveIndexPairs<StringRegion>, IndexOptimized> and FlatStack<ColumnsRegion<MirrorRegion<u8>>, IndexOptimized> with 0..40 items by copy, a reserve in between and a second batch by extend (first composition): own index container reports 0 used and 0 allocated bytes", kani: false },
+            bound: "FlatStack<ConsecutiveIndexPairs<StringRegion>, IndexOptimized> and FlatStack<ColumnsRegion<MirrorRegion<u8>>, IndexOptimized> with 0..40 items (optionally after an earlier life of empty or mixed items and a clear) by copy, a reserve in between and a second batch by extend (first composition): own index container reports 0 used and 0 allocated bytes", kani: false },
         H { name: "into_owned_laws", props: &["C14", "C20", "C12"], nargs: 4, pre: pre_io, doms: doms_io, run: run_io, panic_ok: false,
             bound: "read items of SliceRegion<MirrorRegion<u8>>, ColumnsRegion<MirrorRegion<u8>>, Option<&[u8]>, Result<&[u8],&str>, SliceRegion<SliceRegion<..>>: 4 values x 5 prior clone_onto targets (empty/shorter/longer/equal/other variant) x region-backed and owned-borrowed; region-to-region push (indices compared with the canonical form on a twin), also into ConsecutiveIndexPairs<SliceRegion<..>> followed by further items", kani: false },
         H { name: "read_item_ordering", props: &["C15"], nargs: 11, pre: pre_cmp, doms: doms_cmp, run: run_cmp, panic_ok: false,
-            bound: "SliceRegion<MirrorRegion<u8>>: triples of u8 vectors of length 0..2 (native: bytes over {0,1,255}), each side region-backed from two different regions or owned-borrowed: ==, partial_cmp, cmp equal those of the Vecs; reflexive, antisymmetric, transitive", kani: false },
+            bound: "SliceRegion<MirrorRegion<u8>>: triples of u8 vectors of length 0..2 (native: bytes over {0,1,255}), each side region-backed from two different regions or owned-borrowed: ==, !=, <, <=, >, >=, partial_cmp, cmp, max, min equal those of the Vecs; reflexive, antisymmetric, transitive", kani: false },
     ]
 }
 
